@@ -249,7 +249,7 @@ static void vh_setup_child_io(int errfd)
 
 static void vh_dump_report(int errfd, uint64_t id, const char* how)
 {
-        char buf[16384];
+        static char buf[262144];
         ssize_t n;
         char* line;
         char* save;
@@ -261,7 +261,8 @@ static void vh_dump_report(int errfd, uint64_t id, const char* how)
                 buf[n] = 0;
                 for(line = strtok_r(buf, "\n", &save); line && lines < 60; line = strtok_r(NULL, "\n", &save)){
                         /* skip the library's own warnings */
-                        if(strstr(line, "[WARNING]") || strstr(line, "[LOG]") || strstr(line, " : WARNING : ") || line[0] == 0){
+                        if(strstr(line, "[WARNING]") || strstr(line, "[LOG]") || strstr(line, " : WARNING : ") || line[0] == 0 ||
+                           (line[0] == '[' && line[1] == '2' && (strstr(line, " ERROR : ") || strstr(line, " LOG : ") || strstr(line, " MESSAGE : ")))){
                                 continue;
                         }
                         vh_emit("| %s", line);
